@@ -17,6 +17,7 @@ import (
 	"math/rand/v2"
 	"strings"
 	"testing"
+	"time"
 
 	"github.com/aperturerobotics/bifrost/crypto"
 	"github.com/aperturerobotics/bifrost/hash"
@@ -407,7 +408,7 @@ type verifier struct {
 func TestCheck(t *testing.T) {
 	r := vf.Start(t, "C01", vf.Exploration)
 	defer r.Finish()
-	r.SetRule("parents = honest messages over (key) x (body 1 B..64 KiB) x (context incl. empty, embedded ' - SIGN - ', unicode, NUL, 3 KB) x (3 hash types), built with peer.NewSignedMsg and also by the harness' own reference signer; for each parent the full single-field tamper set (body bytes, every signature byte, every peer-id character kept base58 / made non-base58, structured sender substitutions, verifier contexts, every other hash_type value, signature object dropped/emptied/replaced) plus PRNG multi-field combinations, each presented in memory and after a wire round trip, to SignedMsg.ExtractAndVerify, signaling_rpc.SessionMsg.ExtractAndVerify/Validate and pubmessage.ExtractAndVerify; plus seeded byte mutations of valid wire encodings and random bytes through UnmarshalSignedMsg. Oracle: accept <=> honest by construction; a violation needs real-accepts AND dishonest-by-construction AND unauthentic by the independent reference verifier (own base58/multihash/key-proto decoders, documented sign body, crypto/ed25519, independent hashes); accepted => returned key and ID are the signer's; honest rejected = violation; any panic = violation. A tamper case is non-trivial when its untampered parent verified; a wire case when it decoded and its sender embeds a key; distinct = distinct (parent, verifier, path, tamper)")
+	r.SetRule("parents = honest messages over (key) x (body 1 B..64 KiB; plus LARGE bodies of 1023 B..150000 B at / one below / one above the powers of two from 1 KiB and the multiples of 64 KiB, and 1 MiB+1, presented honestly (package constructor and reference signer) and with sender and signature kept while only the END of the body is altered: last byte / first or a random byte of the last partial block for block sizes 64 B..128 KiB flipped, last 16 bytes rewritten, last block zeroed / rewritten / dropped / taken from the prefix, one byte dropped / appended, extended to the block boundary, or - complementary - a byte in the full blocks in front) x (context incl. empty, embedded ' - SIGN - ', unicode, NUL, 3 KB) x (3 hash types), built with peer.NewSignedMsg and also by the harness' own reference signer; for each parent the full single-field tamper set (body bytes, every signature byte, every peer-id character kept base58 / made non-base58, structured sender substitutions, verifier contexts, every other hash_type value, signature object dropped/emptied/replaced) plus PRNG multi-field combinations, each presented in memory and after a wire round trip, to SignedMsg.ExtractAndVerify, signaling_rpc.SessionMsg.ExtractAndVerify/Validate and pubmessage.ExtractAndVerify; plus seeded byte mutations of valid wire encodings and random bytes through UnmarshalSignedMsg. Oracle: accept <=> honest by construction; a violation needs real-accepts AND dishonest-by-construction AND unauthentic by the independent reference verifier (own base58/multihash/key-proto decoders, documented sign body, crypto/ed25519, independent hashes); accepted => returned key and ID are the signer's; honest rejected = violation; any panic = violation. A tamper case is non-trivial when its untampered parent verified; a wire case when it decoded and its sender embeds a key; distinct = distinct (parent, verifier, path, tamper)")
 	r.Assume("crypto/ed25519 of the Go standard library is the trusted signature primitive (also used by the reference); weak (small-order) public keys are outside the explored space")
 	r.Assume("sender IDs that embed the SAME key in a non-canonical encoding (non-minimal varint, reordered/unknown protobuf fields) are not a change of claimed sender: counted, never judged")
 	r.Assume("the vtprotobuf-generated decoders of SignedMsg / PubMessageInner are trusted to return the fields that are on the wire")
@@ -666,6 +667,118 @@ func TestCheck(t *testing.T) {
 			runParent(parents[i], perParentSeeds[i])
 		}
 	})
+	// ---------- large bodies: tampering confined to the END of the body ----------
+	// Bodies at, one below and one above internal block boundaries (powers of two
+	// from 1 KiB, multiples of 64 KiB, 1 MiB+-1): the honest message (package
+	// constructor and harness reference signer) must verify, and every variant that
+	// keeps sender and signature but alters only the last byte / the first byte of
+	// the last partial block / the last block (or, complementary, the full blocks
+	// in front) must be rejected.
+	{
+		type lcase struct {
+			p    *parent
+			blks []int
+			few  bool
+			rng  *rand.Rand
+		}
+		var lcs []lcase
+		t0 := time.Now() // reported in the evidence only
+		defer func() { r.Extra("large_body_part_wall_s", time.Since(t0).Seconds()) }()
+		addL := func(size int, ht int32, few bool) {
+			i := len(lcs)
+			k, k2 := pick2(i + 3)
+			if k == k2 {
+				k2 = pool[(k.Idx+1)%len(pool)]
+			}
+			lr := r.Rand(fmt.Sprintf("c01-large-%d", i))
+			p := &parent{idx: 400000 + i, key: k, key2: k2, ctx: []string{"large", sessionCtx, "", pubCtx + "chan"}[i%4], ht: ht, body: g.FastBytes(lr, size)}
+			var blks []int
+			for _, b := range []int{65536, 1024, 64, 4096, 16384, 32768, 131072} {
+				if b < size {
+					blks = append(blks, b)
+				}
+			}
+			if few || r.Quick() {
+				blks = blks[:1]
+			} else if len(blks) > 2 {
+				// the 64 KiB block (or the largest below the size) plus one other, by PRNG
+				blks = []int{blks[0], blks[1+lr.IntN(len(blks)-1)]}
+			}
+			lcs = append(lcs, lcase{p: p, blks: blks, few: few, rng: lr})
+		}
+		seed := int(r.Seed() % 3)
+		for i, sz := range append(append([]int(nil), g.MidBodySizes...), g.LargeBodySizes...) {
+			if r.Quick() {
+				// quick: the core tamper set for the bodies above 64 KiB (cost)
+				addL(sz, int32(1+(i+seed)%3), sz > 65000 && sz != 65537 && sz != 150000)
+				if sz == 65537 || sz == 131073 {
+					addL(sz, int32(1+(i+seed+1)%3), true)
+					addL(sz, int32(1+(i+seed+2)%3), true)
+				}
+			} else {
+				for ht := int32(1); ht <= 3; ht++ {
+					addL(sz, ht, false)
+				}
+			}
+		}
+		for i, sz := range g.HugeBodySizes[:r.N(1, len(g.HugeBodySizes))] {
+			if r.Quick() {
+				addL(sz, int32(1+(i+seed)%3), true)
+			} else {
+				for ht := int32(1); ht <= 3; ht++ {
+					addL(sz, ht, true)
+				}
+			}
+		}
+		r.Begin(fmt.Sprintf("large bodies with tampered tails: %d parents", len(lcs)))
+		v := verifiers["SignedMsg"]
+		g.Parallel(workers, func(w int) {
+			for i := len(lcs) - 1 - w; i >= 0; i -= workers {
+				lc := lcs[i]
+				p := lc.p
+				var m *peer.SignedMsg
+				var err error
+				if pn, pd := vf.Try(func() { m, err = peer.NewSignedMsg(p.ctx, p.key.Priv, hash.HashType(p.ht), p.body) }); pn || err != nil {
+					r.Violation("NewSignedMsg/failed", fmt.Sprintf("cannot build an honest message: panic=%v %s err=%v", pn, pd, err), p.sig())
+					continue
+				}
+				p.m = m
+				hq := pres{m: m, vctx: p.ctx, class: "honest/NewSignedMsg/large-body", honest: true}
+				if len(p.body) <= 150000 {
+					present(p, v, hq, true)
+				} else if !r.Quick() {
+					judge(p, v, hq, "mem", m.CloneVT(), true)
+				}
+				if s, ok := g.RefSign(p.key.Std, p.ctx, p.ht, p.body); ok {
+					twin := &peer.SignedMsg{FromPeerId: idString(p.key.Pub), Data: p.body, Signature: &peer.Signature{HashType: hash.HashType(p.ht), SigData: s}}
+					judge(p, v, pres{m: twin, vctx: p.ctx, class: "honest/reference-signer/large-body", honest: true}, "mem", twin.CloneVT(), true)
+					p.ok = true
+				}
+				r.Count("large_body_parents", 1)
+				r.Distinct("large_body_length_x_hash", fmt.Sprintf("%d/h%d", len(p.body), p.ht))
+				for bi, blk := range lc.blks {
+					for ti, tc := range g.TailCases(p.body, blk, lc.rng, lc.few) {
+						if bi > 0 && tc.Full {
+							continue
+						}
+						class := "body/tail-" + tc.Name
+						if tc.Full {
+							class = "body/large-" + tc.Name
+						}
+						q := pres{m: &peer.SignedMsg{FromPeerId: m.FromPeerId, Data: tc.Data, Signature: m.Signature.CloneVT()}, vctx: p.ctx, class: class, detail: fmt.Sprintf("blk%d", blk)}
+						if ti == 0 && bi == 0 && len(p.body) <= 150000 {
+							present(p, v, q, true)
+						} else {
+							judge(p, v, q, "mem", q.m, true)
+						}
+						r.Count("large_body_tail_tampers", 1)
+						r.Distinct("large_body_tamper_x_size_class", fmt.Sprintf("%s/blk%d/rem%d", tc.Name, blk, min(len(p.body)%blk, 2)))
+					}
+				}
+			}
+		})
+	}
+
 	okParents := 0
 	for _, p := range parents {
 		if p.ok {
